@@ -20,17 +20,25 @@ def run(ctx: Ctx) -> int:
     ctx.bounds = {"programs": f"{n} generated (seed {ctx.seed}) + {nfixed} fixed effect-heavy programs outside the known-finding regions, plus probes inside each region",
                   "events": "calls of the opaque f g h (symbolic results), emit(v), panic(msg); compared as ordered lists of (callee, argument values)",
                   "inputs": "x in [-3, 4], y in [-1000, 1000], results of the first 8 opaque calls unbounded ints"}
-    ctx.outside_claim = ["order edges in the HUGR (track_hugr_side_effects) and everything after the CFG", "qubit allocation / measurement order", "array construction, subscripts",
+    ctx.functions_encoded.append("stage 2: checker/expr_checker.py + stmt_checker.py + cfg_checker.py (operator -> dunder resolution incl. reflected forms, inserted coercions, for -> __iter__/__next__/Option protocol, "
+                                 "place decomposition), std/iter.py range / Range.__next__ and std/num.py bindings as reached by the programs, interpreted by lib/e5.py")
+    ctx.bounds["stage 2"] = "first %d programs of the corpus through the checked CFGs; opaque results bounded by |r| <= 1000; paths with a 64-bit overflow, inside a known C04 region or out of fuel are outside" % ctx.pick(30, 400)
+    ctx.outside_claim = ["order edges in the HUGR (track_hugr_side_effects) and everything after the checked CFG", "qubit allocation / measurement order", "array construction, subscripts",
                          "programs inside the two known-finding regions (there only the finding itself is re-established)"]
     ctx.assumptions = ["a block's statements execute in list order, its predicate last; successors[1] = true"]
+    # stage 2 (E5): the same programs through the *checked* CFGs of the real front end (operator resolution, coercions, iterator protocol, 64-bit arithmetic)
+    jobs += e4_check.jobs_for(ctx, "c05", n, batch=3, timeout=ctx.pick(300, 1500), total=n + nfixed, harness="harness/E5_equiv.py", fn="h_equiv5",
+                              upto=ctx.pick(30, 400))
     ctx.crosshair(jobs)
     v = e4_check.collect_verdicts(ctx)
+    e5r = e4_check.collect_e5(ctx)
+    ctx.extra["e5"] = e5r
     ctx.samples.extend({"program": p["src"], "verdict": p["verdict"]} for p in v["programs"][:3])
     return ctx.finish(
         level="translation_validation",
         rule="program = one corpus program accepted by the real check(); per program CrossHair explores every path of (CPython on the source || walk over the real CFG) for symbolic inputs and symbolic call results; event traces must be equal",
         explanation="translation validation of evaluation order: the event trace of CPython executing the source vs. the trace of the real builder's CFG, for all inputs and all results of opaque calls within the bounds",
         trusted_base=["CPython 3.12", "crosshair-tool 0.0.110", "z3 5.1", "import shim", "lib/e4.py block walker", "lib/e4_region.py region predicates of the known findings"],
-        extra_cov={"programs": max(v["accepted"], 1), "disagreements_checked": len(ctx.violations) + len(ctx.known_hits), "programs_rejected_by_checker": v["rejected"],
+        extra_cov={"stage2_checked_cfg": ctx.extra.get("e5"), "programs": max(v["accepted"], 1), "disagreements_checked": len(ctx.violations) + len(ctx.known_hits), "programs_rejected_by_checker": v["rejected"],
                    "rejected_why": v["rejected_why"], "distinct_nontrivial": v["accepted"]},
     )
